@@ -114,6 +114,7 @@ def run(F, R, ctx):
                "%s: %s on a %s that comes from a script integer can overflow (host panic in debug builds, silent wrap "
                "in release): %s" % (fn.short(), desc, ty, why), fn.loc(line),
                sample={"op": desc, "verdict": why}, nontrivial=not safe or meth.startswith("checked"))
+    canonical_rule(F, R)
     # C10.c presence of promotions
     want = [
         (r"^steel::primitives::numbers::add_two$", r"checked_add$"),
@@ -128,3 +129,79 @@ def run(F, R, ctx):
         R.inst("C10.c", "%s uses %s with a big-number fallback" % (lib.short_name(fns[0].name), crx.strip("$")), ok and promo,
                "%s no longer performs its fixnum fast path through %s with promotion to num_bigint on overflow" % (
                    fns[0].short(), crx.strip("$")), fns[0].loc(), sample=True)
+
+
+# ------------------------------------------------------------------ canonical form of exact integers
+CANON_ALLOW = {
+    "steel::primitives::numbers::bitwise_not": "!x of a big integer x is in fixnum range only if x is (x -> -x-1 is a bijection of the fixnum range), so the result of the BigNum arm never fits a fixnum",
+}
+
+
+def canonical_rule(F, R):
+    R.rule("C10.d", "canonical form: SteelVal::BigNum is constructed directly only (i) in the canonicalising conversion "
+                    "<BigInt as IntoSteelVal>::into_steelval / Clone, (ii) from an existing BigNum payload passed through "
+                    "unchanged, (iii) on the overflow (None/Err) branch of a checked_* / try_from / to_isize test or under a "
+                    "range comparison; everything else must go through into_steelval, which demotes results that fit a "
+                    "fixnum (number equality treats a fixnum and a bignum as different)")
+    n = 0
+    for name, fn in sorted(F.fns.items()):
+        if not name.startswith("steel::") or "::jit2::" in name:
+            continue
+        sites = [(i, e) for i, _, e in fn.events("agg") if e[1] == "SteelVal" and e[2] == "BigNum"]
+        if not sites:
+            continue
+        dom = None
+        for i, e in sites:
+            n += 1
+            key = "%s / constructs SteelVal::BigNum" % fn.short()
+            if re.search(r"\{impl IntoSteelVal for BigInt\}::into_steelval$|\{impl Clone for SteelVal\}::clone$", name):
+                R.inst("C10.d", key + " (canonicalising converter / clone)", True, sample=True, nontrivial=False)
+                continue
+            if name in CANON_ALLOW:
+                R.inst("C10.d", key + " (allowlisted)", True, sample={"reason": CANON_ALLOW[name]}, nontrivial=False)
+                continue
+            ok, why = False, ""
+            ops = e[4] if len(e) > 4 else []
+            for o in ops:
+                if o.startswith("_"):
+                    srcs = lib.alias_sources(fn, o, depth=8)
+                    t = lib.tainted_locals(fn, [])  # placeholder to keep API symmetrical
+                    if any(" as BigNum" in s_ for s_ in srcs):
+                        ok, why = True, "passes an existing BigNum payload through"
+            if not ok:
+                # clone of an existing payload: Gc::clone(&payload)
+                for o in ops:
+                    if o.startswith("_"):
+                        for _, cb in fn.calls():
+                            if cb["dest"] == o and re.search(r"\{impl Clone for Gc<T>\}::clone$", cb["callee"]):
+                                if any(" as BigNum" in s_ for a in cb["args"] for s_ in lib.alias_sources(fn, a, depth=8)):
+                                    ok, why = True, "clones an existing BigNum payload"
+            if not ok:
+                if dom is None:
+                    dom = fn.dominators()
+                for d in dom.get(i, ()):
+                    blk = fn.blocks[d]
+                    if blk["k"] != "switch":
+                        continue
+                    if blk["on"] in ("enum:Option", "enum:Result"):
+                        pl = blk.get("place", "")
+                        loc = re.match(r"_\d+", pl.strip("(*)"))
+                        srcs = lib.alias_sources(fn, loc.group(0), depth=6) if loc else set()
+                        prod = [cb for _, cb in fn.calls() if cb["dest"] in srcs and
+                                re.search(r"::(checked_\w+|try_from|try_into|to_isize|to_i64)$", cb["callee"])]
+                        if prod:
+                            m = lib.arm_map(fn, d)
+                            good = m.get("Some", m.get("Ok"))
+                            others = [t for v, t in m.items() if t != good]
+                            # the construction must be on the non-success side
+                            if good is not None and i not in fn.reachable_from([good], avoid={d}) or \
+                                    any(i in fn.reachable_from([t], avoid={d}) and i not in fn.reachable_from([good], avoid={d}) for t in others):
+                                ok, why = True, "overflow branch of %s" % lib.split_path(prod[0]["callee"])[-1]
+                    elif blk["on"] == "bool" and any(ev[0] == "binop" and ev[1] in ("Gt", "Ge", "Lt", "Le") for ev in blk["e"]):
+                        ok, why = True, "under a range comparison"
+            R.inst("C10.d", key, ok,
+                   "%s builds SteelVal::BigNum directly (line %s) from a computed big integer without going through "
+                   "into_steelval: if the result fits a fixnum it is left in non-canonical form, and = / equal? / hash "
+                   "treat it as different from the same number as a fixnum" % (fn.short(), e[3]), fn.loc(e[3]),
+                   sample={"verdict": why})
+    R.floor("C10.d", "direct BigNum constructions", n, 10)
